@@ -374,6 +374,10 @@ def install(ex, game, env):
         prev = env['clock_terms'][-1] if env['clock_terms'] else None
         if prev is not None:
             ctx.ex.assume(z3.UGE(t, prev))
+        # a summarised sub-search that was cut by the clock budget has seen the clock at or beyond that budget;
+        # the clock does not run backwards
+        for cond, floor in env.get('clock_floor', []):
+            ctx.ex.assume(z3.Implies(zb(cond), z3.UGE(t, floor)))
         env['clock_terms'].append(t)
         return ('duration', t)
     ex.model(r'^std::time::Instant::elapsed$', instant_elapsed)
